@@ -18,6 +18,8 @@ pub enum A {
     Group,
     GroupFA,
     Cmd,
+    /// `arg.optional().guard(is_some)`: its absence is reported by a guard, not as a missing item
+    ArgPresent,
 }
 #[derive(Clone, Copy, Debug, PartialEq, Eq, Serialize, Deserialize)]
 pub enum W {
@@ -42,12 +44,14 @@ pub struct Def {
 }
 
 const L1: [&str; 4] = ["la", "lb", "lc", "ld"];
+/// second (hidden) short names of the first items when `long_names` is set
+const A1: [char; 4] = ['A', 'B', 'C', 'D'];
 const S1: [char; 4] = ['a', 'b', 'c', 'd'];
 const S2: [char; 4] = ['p', 'q', 'r', 's'];
 const CMD: [&str; 4] = ["ca", "cb", "cc", "cd"];
 
 fn alt(k: A, i: usize, long_names: bool) -> P {
-    let s1 = if long_names { Names::both(S1[i], L1[i]) } else { Names::short(S1[i]) };
+    let s1 = if long_names { Names::both(S1[i], L1[i]).alias_s(A1[i]) } else { Names::short(S1[i]) };
     let s2 = Names::short(S2[i]);
     let arg = |n: Names| P::arg(n, Ty::Os);
     let p = match k {
@@ -58,6 +62,7 @@ fn alt(k: A, i: usize, long_names: bool) -> P {
         A::Group => P::Seq(vec![arg(s1), arg(s2)]),
         A::GroupFA => P::Seq(vec![P::ReqFlag(s1), arg(s2)]),
         A::Cmd => P::cmd(CMD[i], Opts::new(P::Seq(vec![P::Switch(s2)]))),
+        A::ArgPresent => P::Guard(arg(s1).opt().bx(), GuardK::Present),
     };
     P::Map(p.bx(), format!("k{}", i))
 }
@@ -98,6 +103,13 @@ pub fn alphabet_for(d: &Def) -> Vec<Tok> {
         }
         if d.long_names && *k != A::Cmd {
             alpha.push(format!("--{}", L1[i]));
+            // the alias, alone and bundled behind another flag alternative
+            if matches!(k, A::Req | A::Switch) {
+                alpha.push(format!("-{}", A1[i]));
+                if let Some(j) = d.ks.iter().enumerate().position(|(j, kj)| j != i && matches!(kj, A::Req | A::Switch)) {
+                    alpha.push(format!("-{}{}", S1[j], A1[i]));
+                }
+            }
         }
     }
     alpha.iter().map(|s| Tok::s(s)).collect()
@@ -115,12 +127,26 @@ fn normalise(d: &Def, argv: &[Tok]) -> Vec<Tok> {
     if !d.long_names {
         return argv.to_vec();
     }
-    argv.iter()
-        .map(|t| match t.utf8().and_then(|s| s.strip_prefix("--")).and_then(|n| L1.iter().position(|l| *l == n)) {
-            Some(i) => Tok::s(&format!("-{}", S1[i])),
-            None => t.clone(),
-        })
-        .collect()
+    let mut out = vec![];
+    for t in argv {
+        let s = t.lossy();
+        if let Some(i) = s.strip_prefix("--").and_then(|n| L1.iter().position(|l| *l == n)) {
+            out.push(Tok::s(&format!("-{}", S1[i])));
+            continue;
+        }
+        // `-A` and bundles of flag letters `-bA`: one item per letter, aliases as primaries
+        let body: Vec<char> = s.strip_prefix('-').map(|b| b.chars().collect()).unwrap_or_default();
+        let is_flag_letter = |c: &char| S1.iter().position(|x| x == c).or_else(|| A1.iter().position(|x| x == c)).map_or(false, |i| i < d.ks.len() && matches!(d.ks[i], A::Req | A::Switch));
+        if !s.starts_with("--") && !body.is_empty() && (body.len() >= 2 || A1.contains(&body[0])) && body.iter().all(is_flag_letter) {
+            for c in body {
+                let i = S1.iter().position(|x| *x == c).or_else(|| A1.iter().position(|x| *x == c)).unwrap();
+                out.push(Tok::s(&format!("-{}", S1[i])));
+            }
+            continue;
+        }
+        out.push(t.clone());
+    }
+    out
 }
 
 pub fn model(d: &Def, argv: &[Tok]) -> M {
@@ -167,7 +193,7 @@ pub fn model(d: &Def, argv: &[Tok]) -> M {
             let k = ks[ai];
             let takes_val = match (k, is1) {
                 (A::Req, true) | (A::Switch, true) | (A::GroupFA, true) => false,
-                (A::Arg, true) | (A::ArgFb, true) | (A::Group, true) => true,
+                (A::Arg, true) | (A::ArgFb, true) | (A::Group, true) | (A::ArgPresent, true) => true,
                 (A::Group, false) | (A::GroupFA, false) => true,
                 (A::Cmd, _) => return M::Unspec,
                 _ => return M::Fail,
@@ -284,6 +310,13 @@ pub fn model(d: &Def, argv: &[Tok]) -> M {
                 }
             }
             A::Cmd => None,
+            A::ArgPresent => {
+                if c1.len() == 1 && c2.is_empty() {
+                    Some(Val::some(val(c1[0])))
+                } else {
+                    None
+                }
+            }
         };
         inner.map(|x| Val::tag(&format!("k{}", ai), x))
     };
@@ -478,6 +511,15 @@ impl Check for C07 {
                         }
                     }
                 }
+            }
+        }
+        // an alternative whose absence is reported by a guard: the later alternatives still get
+        // their turn (bare choices only: such an alternative makes optional / repeated choices fail)
+        for other in [A::Req, A::Arg, A::Switch, A::ArgFb, A::Group] {
+            for with_v in [false, true] {
+                out.push(Def { ks: vec![A::ArgPresent, other], w: W::Bare, with_v, len: tier.pick(4, 5), choice_fn: false, long_names: false });
+                out.push(Def { ks: vec![other, A::ArgPresent], w: W::Bare, with_v, len: tier.pick(4, 5), choice_fn: false, long_names: false });
+                out.push(Def { ks: vec![A::ArgPresent, other, A::Req], w: W::Bare, with_v, len: tier.pick(3, 4), choice_fn: false, long_names: false });
             }
         }
         // both spellings of every alternative's first item (a flag found by any of its names must
